@@ -312,7 +312,10 @@ def twin_record(rel, A, B, *, kind, wca=(-1,), pi=None, lead=None, slack=256, ex
             a = np.asarray(a)
             b = np.asarray(b)
             if rel == 'slice':
-                a = a[tuple(lead or [])] if a.ndim == b.ndim + len(lead or []) else a
+                try:
+                    a = a[tuple(lead or [])] if a.ndim == b.ndim + len(lead or []) else a
+                except IndexError:
+                    a = np.zeros(0)                 # a stacked field without this leading index: left to the shape clauses
                 if a.shape != b.shape:
                     R = []
                     rec['fine'] = 0
